@@ -814,7 +814,15 @@ def run(ctx: Ctx):
                 case = {"corpus": f.name}
                 ctx.case(case)
                 ctx.count("corpus")
-                one_text(ctx, drv, wd, text, case)
+                pc = one_text(ctx, drv, wd, text, case)
+                if f.name == "two_freq_azi_valid_until.atx":
+                    per = None if pc is None else pc.as_dict().get("G01", {}).get(_dt.datetime(1992, 11, 22))
+                    ok = (per is not None and abs(per["valid_until"] - _dt.datetime(2008, 10, 17)) <= _dt.timedelta(microseconds=1)
+                          and len(per.get("elevation", [])) == 3 and np.asarray(per["G02"]["azi"]).shape == (3, 3)
+                          and np.asarray(per["G02"]["azi"]).dtype.kind == "f" and float(np.asarray(per["G02"]["azi"])[0, 0]) == 10.0)
+                    if not ok:
+                        ctx.violate("corpus:two_freq_azi_valid_until", "the corpus file (two frequencies with azimuth rows, VALID UNTIL ...59.9999999, "
+                                    "zenith step 0.1) is not parsed into its own numbers", {**case, "file_text": text})
         # the repository's example file through both (correspondence only: no generating model)
         ex = common.REPO / "tests" / "parsers" / "example_files" / "antex"
         if ex.exists():
